@@ -71,7 +71,9 @@ class HTTPConnection(Mapping[str, Any], MoreInfoFromHeaderMixin):
         The full URL of this request.
         """
         try:
-            return URL(environ=self._environ)
+            url = URL(environ=self._environ)
+            url.port  # a malformed port in the Host header only shows when it is read
+            return url
         except ValueError:
             # e.g. Host: "[", a path or query that is not UTF-8
             raise HTTPException(400, content="Malformed request URL") from None
